@@ -1707,6 +1707,103 @@ def rule_passthrough_options(ctx) -> RuleResult:
 
 
 # ---------------------------------------------------------------------------------------------
+# R-KWPASS (C18): the finalizer's keyword arguments reach it with the content the caller gave.
+# `finalize_kwargs` carries the requested quantile levels `q`; the kernel, the new leading dimension and NumPy's oracle all answer one row per
+# *given* level, in the given order, repeated levels included.  The blueprint's copy must therefore be a whole-value copy, and any later
+# store into a key of that dict must be an elementwise conversion (a comprehension without filter, np.asarray/tuple/list of the old value):
+# a store computed through a de-duplicating or reordering constructor (set, dict.fromkeys, np.unique, sorted, np.sort) or a filtered
+# comprehension changes the number or order of the rows.
+_RESHAPING = {"set", "frozenset", "dict.fromkeys", "np.unique", "pd.unique", "sorted", "np.sort", "np.argsort", "np.clip", "np.round", "round", "np.around"}
+
+
+def rule_kwpass(ctx) -> RuleResult:
+    res = RuleResult("R-KWPASS", "finalize_kwargs reach the finalizer with the caller's content: whole-value copy, no reshaping rewrite of a key", min_instances=1)
+    prog = ctx.prog
+    init = prog.func("aggregations._initialize_aggregation")
+    copies = [a for a in walk_own(init.node) if isinstance(a, ast.Assign) and len(a.targets) == 1 and norm(a.targets[0]).endswith(".finalize_kwargs")]
+    if not copies:
+        raise AnalysisError("_initialize_aggregation no longer binds <blueprint>.finalize_kwargs (anchor)")
+    for a in copies:
+        v = a.value
+        whole = (isinstance(v, ast.Name) and v.id == "finalize_kwargs") or \
+                (isinstance(v, ast.Call) and norm(v.func) in ("copy.deepcopy", "deepcopy", "copy.copy", "dict") and len(v.args) == 1 and norm(v.args[0]) == "finalize_kwargs" and not v.keywords) or \
+                (isinstance(v, ast.Dict) and len(v.keys) == 1 and v.keys[0] is None and norm(v.values[0]) == "finalize_kwargs")
+        res.inst(f"_initialize_aggregation: '{norm(a)[:70]}' is a whole-value copy of the caller's dict: {whole}", f"copy|{norm(v)[:40]}")
+        if not whole:
+            res.report("aggregations._initialize_aggregation|finalize-kwargs-not-copied-whole", init.where(a), init.qualname,
+                       f"'{norm(a)[:80]}' does not bind the caller's finalize_kwargs as a whole: the finalizer runs with other arguments than were given")
+    for q, f in sorted(prog.funcs.items()):
+        if isinstance(f.node, ast.Lambda):
+            continue
+        for x in walk_own(f.node):
+            tgt = val = None
+            if isinstance(x, ast.Assign) and len(x.targets) == 1 and isinstance(x.targets[0], ast.Subscript) and "finalize_kwargs" in norm(x.targets[0].value):
+                tgt, val = x.targets[0], x.value
+            elif isinstance(x, ast.Call) and isinstance(x.func, ast.Attribute) and x.func.attr in ("update", "pop", "setdefault", "clear", "popitem") \
+                    and norm(x.func.value).endswith("finalize_kwargs") and not q.startswith("xarray."):
+                tgt, val = x.func, x
+            if tgt is None:
+                continue
+            calls = {norm(c.func) for c in ast.walk(val) if isinstance(c, ast.Call)}
+            filtered = any(isinstance(c, (ast.GeneratorExp, ast.ListComp, ast.SetComp)) and (isinstance(c, ast.SetComp) or any(g.ifs for g in c.generators)) for c in ast.walk(val))
+            method_sort = any(isinstance(c, ast.Call) and isinstance(c.func, ast.Attribute) and c.func.attr in ("sort", "unique", "drop_duplicates", "clip", "round") for c in ast.walk(val))
+            reshaping = sorted(calls & _RESHAPING) + (["filtered comprehension"] if filtered else []) + (["sort/unique method"] if method_sort else [])
+            key = norm(tgt.slice) if isinstance(tgt, ast.Subscript) else f".{tgt.attr}()"
+            res.inst(f"{q}: store into finalize_kwargs[{key}]: reshaping constructors: {reshaping or 'none'}", f"{q}|store|{key}")
+            if reshaping or not isinstance(tgt, ast.Subscript):
+                res.report(f"{q}|finalize-kwargs-rewritten|{key}", f.where(x), q,
+                           f"'{norm(x)[:90]}' rewrites the caller's finalizer argument {key} through {reshaping or 'a dict mutation'}: the number / order of the requested "
+                           "levels changes (quantile with q=[0.25, 0.75, 0.25] returns 2 rows where np.quantile returns 3)")
+            else:
+                res.notes.append(f"{q}: store into finalize_kwargs[{key}] is taken as an elementwise conversion ('{norm(val)[:60]}')")
+    return res
+
+
+# ---------------------------------------------------------------------------------------------
+# R-SLOTFILL (C06, C04): the padding sentinel of every intermediate is resolved against THAT intermediate's dtype.
+# A blueprint has one dtype and one fill sentinel (INF / NINF / NA / a number) per intermediate.  For the position reductions the slots differ
+# from the final dtype: the block extreme is floating (NINF -> -inf), the position is np.intp (the final dtype).  Resolving the extreme's
+# sentinel against the final dtype gives iinfo(intp).min -- a *finite* padding that a real member below it loses against -- so the resolution
+# must take its dtype from the parallel tuple agg.dtype["intermediate"], slot by slot (zip / a shared index).
+def rule_slotfill(ctx) -> RuleResult:
+    res = RuleResult("R-SLOTFILL", "each intermediate's fill sentinel is resolved against that intermediate's own dtype (slot-aligned)", min_instances=1)
+    f = ctx.prog.func("aggregations._initialize_aggregation")
+    stores = [a for a in walk_own(f.node) if isinstance(a, ast.Assign) and len(a.targets) == 1
+              and norm(a.targets[0]).replace('"', "'").endswith(".fill_value['intermediate']")]
+    if not stores:
+        raise AnalysisError("_initialize_aggregation no longer resolves <blueprint>.fill_value['intermediate'] (anchor)")
+    IDT = ".dtype['intermediate']"
+    for a in stores:
+        calls = [c for c in ast.walk(a.value) if isinstance(c, ast.Call) and norm(c.func).split(".")[-1] == "_get_fill_value" and c.args]
+        if not calls:
+            res.inst(f"'{norm(a)[:60]}': no sentinel resolution in this store", f"store|{a.lineno}")
+            continue
+        # comprehension targets -> what they iterate over (zip positions resolved)
+        origin: dict[str, str] = {}
+        for comp in ast.walk(a.value):
+            if isinstance(comp, (ast.GeneratorExp, ast.ListComp)):
+                for g in comp.generators:
+                    it = g.iter
+                    if isinstance(it, ast.Call) and norm(it.func) == "zip" and isinstance(g.target, ast.Tuple) and len(g.target.elts) == len(it.args):
+                        for t, src in zip(g.target.elts, it.args):
+                            if isinstance(t, ast.Name):
+                                origin[t.id] = norm(src).replace('"', "'")
+                    elif isinstance(g.target, ast.Name):
+                        origin[g.target.id] = norm(it).replace('"', "'")
+        for c in calls:
+            d = c.args[0]
+            src = origin.get(d.id) if isinstance(d, ast.Name) else norm(d).replace('"', "'")
+            ok = src is not None and (src.endswith(IDT) or (IDT + "[") in src)
+            res.inst(f"_initialize_aggregation: '{norm(c)[:60]}' takes its dtype from {src or norm(d)}: slot-aligned with the intermediates: {ok}", f"resolve|{norm(c)[:40]}")
+            if not ok:
+                res.report("aggregations._initialize_aggregation|intermediate-sentinel-resolved-against-other-dtype", f.where(c), f.qualname,
+                           f"'{norm(c)[:70]}' resolves the padding sentinel of an intermediate against '{src or norm(d)}', not against that intermediate's dtype "
+                           "(agg.dtype['intermediate'][i]): for argmax the block extreme is float64 but the final dtype is intp, so NINF becomes -9.2e18 instead of -inf and "
+                           "the padding of a block without the group beats real members below it (nanargmax([nan, nan | -1e19, -3e19]) returns the padded block's position)")
+    return res
+
+
+# ---------------------------------------------------------------------------------------------
 # R-PREDFAMILY (C11, C19): the `_is_*_reduction(func: T_Agg)` predicates treat both spellings of a reduction alike.
 # `func` may be a name or an Aggregation object (flox.aggregations.max_ is a legal argument).  Every predicate of the family either turns the
 # object into its name (`if isinstance(func, Aggregation): func = func.name`) or tests the object explicitly; one that only recognises strings
